@@ -312,6 +312,27 @@ func c06Case(unit string, E uint16, phase int64, interf string) (string, *TimedC
 		tc.Steps = append(tc.Steps, TStep{At: tb + En/2, Client: 0, Cmd: r})
 		tc.Expect = []Expect{{Req: 3, Kind: "expried", Lo: 5 * sec, Hi: 7 * sec, FromReq: 3}, {Req: 1, Kind: "never-expires"}}
 		tc.Horizon = tb + En/2 + 5*sec + 4*sec
+	case "relock-in-milliseconds":
+		// a hold taken in seconds is re-entered 900 ms later with a period of 999 ms given in milliseconds
+		r := h
+		r.Req, r.Expried, r.ExpriedFlag = 3, 999, fMilli
+		tc.Steps = append(tc.Steps, TStep{At: tb + 900*ms, Client: 0, Cmd: r})
+		tc.Expect = []Expect{{Req: 3, Kind: "expried", Lo: 999 * ms, Hi: 999*ms + 2*sec, FromReq: 3}, {Req: 1, Kind: "never-expires"}}
+		tc.Horizon = tb + En + 6*sec
+	case "update-to-milliseconds":
+		// ... or updated (Rcount changed, so the update cannot be taken for "equal") to 999 ms: a shortening
+		u := h
+		u.Req, u.Flag, u.Rcount, u.Expried, u.ExpriedFlag = 3, 0x02, 2, 999, fMilli
+		tc.Steps = append(tc.Steps, TStep{At: tb + 900*ms, Client: 0, Cmd: u})
+		tc.Expect = []Expect{{Req: 3, Kind: "expried", Lo: 999 * ms, Hi: 999*ms + 10*sec, FromReq: 3}, {Req: 1, Kind: "never-expires"}}
+		tc.Horizon = tb + En + 14*sec
+	case "update-to-unlimited-0xffff":
+		// an update that carries the unlimited flag with Expried 0xffff: the hold is never ended by time afterwards
+		u := h
+		u.Req, u.Flag, u.Rcount, u.Expried, u.ExpriedFlag = 3, 0x02, 2, 0xffff, fUnlim
+		tc.Steps = append(tc.Steps, TStep{At: tb + 900*ms, Client: 0, Cmd: u})
+		tc.Expect = []Expect{{Req: 3, Kind: "never-expires"}, {Req: 1, Kind: "never-expires"}}
+		tc.Horizon = tb + En + 30*sec
 	case "update-lengthens":
 		u := h
 		u.Req, u.Flag, u.Expried = 3, 0x02, E*2+3
@@ -458,6 +479,13 @@ func c06Cases(quick bool) []EnumCase {
 					out = append(out, mkCase(n, tc))
 				}
 			}
+		}
+	}
+	for _, ph := range phases {
+		for _, in := range []string{"relock-in-milliseconds", "update-to-milliseconds", "update-to-unlimited-0xffff"} {
+			n, tc := c06Case("s", 5, ph, in)
+			tc.SigSuffix = "/seconds-hold/" + in
+			out = append(out, mkCase(n, tc))
 		}
 	}
 	add("s", 10, 500*ms, "unlimited")
